@@ -91,6 +91,16 @@ func cast(iface interface{}) interface{} {
 			n[i] = cast(v[i])
 		}
 		return n
+	case int:
+		// The matcher compares numbers as float64s.  It converts a
+		// number it is given directly, but not one inside an array.
+		return float64(v)
+	case int32:
+		return float64(v)
+	case int64:
+		return float64(v)
+	case float32:
+		return float64(v)
 	default:
 		if v, ok := ISlice(v); ok {
 			return cast(v)
